@@ -13,6 +13,7 @@ from pyvc.values import Obj, Extern, Volatile, ModelValue, FlexDict
 from pyvc.core import And, Or, Not, Implies, Iff, If, Eq, In, Sym, compare, binop, wrap, to_z3
 
 import experiment.model.errors
+import experiment.model.codes as codes
 
 EN = 'python/experiment/runtime/engine.py'
 T0 = datetime.datetime(2026, 1, 1)
@@ -384,6 +385,59 @@ class KillDelayExpires(Target):
         return [('with-no-task-running-the-engine-is-stopped-at-once', g['engine_killed'] == 1 and st.this.kernelCompleted is True)]
 
 
+class ExitReasonAndKill(Target):
+    """'it then stops': kill() sets the monitor's cancel event (once); the engine counts as stopped (exitReason not None,
+    isAlive False) exactly when the event is set and the kernel either never launched a task or completed its last call
+    -- and never before kill() was called."""
+    prop = 'C13'
+    name = 'RepeatingEngine.kill/exitReason/isAlive'
+    file = EN
+    qualname = 'RepeatingEngine.kill'
+    inline_class = {'this': (EN, 'RepeatingEngine')}
+    compare_return = False
+    trusted = ["threading.Event set/is_set"]
+    assumptions = ["every combination of: cancel event already set, a task was launched, kernel completed, last task exhausted "
+                   "its resources, a final restart in progress (lastExecution)"]
+
+    def setup(self, c):
+        g = c.ghost
+        was_set = c.one_of('cancel_event_already_set', [False, True])
+        ev = {'set': was_set, 'sets': 0}
+
+        def set_(c):
+            ev['set'] = True
+            ev['sets'] += 1
+        launched = c.one_of('a_task_was_launched', [False, True])
+        completed = c.one_of('kernelCompleted', [False, True])
+        exhausted = c.one_of('last_task_ResourceExhausted', [False, True]) if launched else False
+        last_exec = c.one_of('lastExecution', [False, True])
+        proc = Obj('task', exitReason=codes.exitReasons['ResourceExhausted'] if exhausted else codes.exitReasons['Success']) \
+            if launched else None
+        this = Obj('repeating-engine', log=NULLLOG, process=proc, kernelCompleted=completed, lastExecution=last_exec,
+                   cancelMonitorEvent=Obj('event', is_set=Extern('Event.is_set', lambda c: ev['set']), set=Extern('Event.set', set_)))
+        return State(args=[this], this=this, ev=ev, was_set=was_set, launched=launched, completed=completed, exhausted=exhausted,
+                     last_exec=last_exec)
+
+    def ensures(self, c, st, out):
+        if out.kind == 'raise':
+            return [('no-exception', False)]
+        this = st.this
+        reason = this.exitReason()             # the other REAL methods, on the state kill() left behind
+        alive = this.isAlive()
+        stopped_expected = (not st.last_exec) and st.ev['set'] and ((not st.launched) or st.completed)
+        cl = [('kill-requests-the-monitor-to-stop', st.ev['set'] is True or st.last_exec),
+              ('the-cancel-event-is-set-at-most-once', st.ev['sets'] <= (0 if st.was_set else 1)),
+              ('stopped-exactly-when-cancelled-and-the-kernel-is-done', (reason is not None) == stopped_expected),
+              ('alive-iff-no-exit-reason', alive == (reason is None))]
+        if reason is not None:
+            cl.append(('exit-reason-is-success-or-resource-exhausted',
+                       reason == (codes.exitReasons['ResourceExhausted'] if st.exhausted else codes.exitReasons['Success'])))
+        return cl
+
+    def cross_compare(self, *a):
+        return []
+
+
 class ScheduleNextInstance(Target):
     prop = 'C13'
     name = 'RepeatingEngine.run.schedule_next_instance'
@@ -480,5 +534,5 @@ class BoundedStop(Lemma):
                 ('no-retries-left-means-kill', Implies(And(step, pd, budget0 == r0 + 1, budget0 == 1), killed))]
 
 
-TARGETS = [TaskController(), ScheduleNextInstance(), NotifyProducersFinished(), MonitorIteration(), ObserverWiring(), KillDelayExpires()]
+TARGETS = [TaskController(), ScheduleNextInstance(), NotifyProducersFinished(), MonitorIteration(), ObserverWiring(), KillDelayExpires(), ExitReasonAndKill()]
 LEMMAS = [BoundedStop()]
